@@ -764,7 +764,8 @@ LEVEL_TEXT = ("Proved in Lean 4 about the executable model the driver runs (AslM
               "UTF-16LE/BE mark as the UTF-8 encoding of that sequence with every CR LF folded to LF and nothing else changed (text_utf16_fold, "
               "through C08's utf16toUtf8 model), hence as its own UTF-8 encoding whenever it has no adjacent CR LF (text_utf8, text_bom_utf8, "
               "text_utf16_partial), never reading outside its buffers on any bytes (text_total); the full UTF-16 statement is refuted by CR LF "
-              "(text_utf16_crlf_counterexample, known finding); readLine(char) returns the bytes before the next delimiter (readLine_delim); any history of put / TextFile write / append / objects opened in READ, WRITE, "
+              "(text_utf16_crlf_counterexample, known finding); readLine(char) returns the bytes before the next delimiter (readLine_delim); LF-free lines written with CR LF (or LF) between "
+              "them are read back exactly (lines_join_crlf, lines_join_lf, write_lines_read_lines); any history of put / TextFile write / append / objects opened in READ, WRITE, "
               "APPEND, RW mode and written through any number of times leaves exactly the bytes a reference store predicts and touches no "
               "other path (store_refines), and content/size/firstBytes/read return those bytes (read_back, read_seq, written_is_read); the "
               "Directory::copy block loop writes exactly the source for every size and block size (copy_exact), copy and move (rename or "
